@@ -74,6 +74,15 @@ def special_cases(ctx):
         for h in hist:
             c.stmts.append(Do(Call("i." + h, STR(rand_payload(r, 40)))))
         cases.append(c)
+    # one flow used for more than 2^16 requests: the 16-bit sequence number wraps to 0
+    if ctx.thorough:
+        c = Case()
+        c.name, c.files, c.text, c.meta = "iwrap", {}, None, []
+        hist = ["echo"] * 65538 + ["echo_reply", "echo", "echo_reply"]
+        c.gen = {"kind": "icmp-history", "hist": hist}
+        c.stmts = [Import("ipv4"), Let("i", Call("ipv4::icmp::flow", IP(rand_ip(r)), IP(rand_ip(r))))] + \
+                  [Do(Call("i." + h, STR(b"p"))) for h in hist]
+        cases.append(c)
     # sums that carry twice: payload of 0xff bytes, odd and even lengths
     for i, n in enumerate([1, 2, 3, 255, 256, 1399, 1400]):
         c = Case()
@@ -157,7 +166,7 @@ def run(ctx):
                 for h, t in zip(hist, ic):
                     typ, code, cs, ident, seq = struct.unpack(">BBHHH", t[5][:8])
                     ids.add(ident)
-                    want_typ, want_seq = (8, nreq) if h == "echo" else (0, nrep)
+                    want_typ, want_seq = (8, nreq % 65536) if h == "echo" else (0, nrep % 65536)
                     if h == "echo":
                         nreq += 1
                     else:
